@@ -34,7 +34,7 @@ REQUIRED_SEEN = {"only_cause": ["failed_scenario", "aborted", "aborted_without_f
                                 "undefined_dry_run"],
                  "verdict": ["failed", "success"], "file_filter": ["include+exclude:file_matching_both"],
                  "nested_sub_step_outcome": ["fail", "error", "pending", "undefined", "pass"], "tag_name_class": ["contains_operator_word"],
-                 "raising_cleanup_registered_as": ["own_function", "same_function_other_arguments"]}
+                 "raising_hook_decoration": ["capture"], "raising_cleanup_registered_as": ["own_function", "same_function_other_arguments"]}
 NSHARDS = {"quick": 16, "thorough": 16}
 NONTRIVIAL = "see RULE"
 
@@ -321,7 +321,15 @@ def run(spec, mon):
                                          unexpected=[x for x in got_h if x not in want_h][:6]))
         if nh:
             ks = rng.sample(range(nh), min(nh, 2 if tier == "quick" else 4))
-            run_hook_fault(lab, mon, case, obs, pred, rng, ks)
+            if i % 3 == 2:
+                # environment hooks decorated with behave's @capture: a raising decorated hook is a raising hook
+                from ..lab.inproc import HOOK_NAMES
+                lab.capture_hooks = set(rng.sample(HOOK_NAMES, rng.randint(4, len(HOOK_NAMES))))
+                mon.seen("raising_hook_decoration", "capture")
+            try:
+                run_hook_fault(lab, mon, case, obs, pred, rng, ks)
+            finally:
+                lab.capture_hooks = None
             if i % 2 == 0:
                 run_cleanup_fault(lab, mon, case, obs, pred, rng, 1)
     if tier == "thorough":
